@@ -1229,6 +1229,7 @@ namespace
             return {};
         }
         auto val = params[1];
+        auto oldsize = arr->size();
         if (static_cast<int>(arr->size()) <= index)
         {
             arr->resize(index + 1);
@@ -1238,6 +1239,10 @@ namespace
         if (!arr->recursion_test())
         {
             (*arr)[index] = oldval;
+            if (arr->size() > oldsize)
+            {
+                arr->resize(oldsize);
+            }
             runtime.__logmsg(err::ArrayRecursion(runtime.context_active().current_frame().diag_info_from_position()));
             return {};
         }
